@@ -25,8 +25,9 @@ Record kst := mkk {
   k_streams : Z;     (* len(t.activeStreams) *)
   k_closed : bool;   (* transport closed by keepalive *)
   k_ack : bool;      (* harness: the peer acknowledges pings (an ack is a read at the same instant) *)
-  k_ping : Z }.      (* ghost: when the last keepalive ping was sent *)
-Definition kinit (c : kcfg) := mkk 0 0 0 false 0 (kc_time c) false 0 false false 0.
+  k_ping : Z;        (* ghost: when the last keepalive ping was sent *)
+  k_drain : bool }.  (* t.state == draining: a graceful GOAWAY was received, the open streams go on *)
+Definition kinit (c : kcfg) := mkk 0 0 0 false 0 (kc_time c) false 0 false false 0 false.
 
 (* "if !outstandingPing { put(ping); timeoutLeft = Timeout; outstanding = true };
     sleep = min(Time, timeoutLeft); timeoutLeft -= sleep; timer.Reset(sleep)" at time t *)
@@ -35,7 +36,7 @@ Definition ping_and_sleep (c : kcfg) (s : kst) (t : Z) : kst * list (Z * Z) :=
   let left := if fresh then kc_timeout c else k_left s in
   let sleep := Z.min (kc_time c) left in
   (mkk t (if fresh && k_ack s then t else k_last s) (k_prev s) true (left - sleep) (t + sleep) false
-       (k_streams s) false (k_ack s) (if fresh then t else k_ping s),
+       (k_streams s) false (k_ack s) (if fresh then t else k_ping s) (k_drain s),
    if fresh then [(6, t)] else []).
 
 (* one firing of the timer, at time k_timer s *)
@@ -44,11 +45,11 @@ Definition fire (c : kcfg) (s : kst) : kst * list (Z * Z) :=
   if k_prev s <? k_last s then
     (* read activity since the last check: next firing Time after the last read (at once if
        that is already past) *)
-    (mkk t (k_last s) (k_last s) false (k_left s) (Z.max t (k_last s + kc_time c)) false (k_streams s) false (k_ack s) (k_ping s), [])
+    (mkk t (k_last s) (k_last s) false (k_left s) (Z.max t (k_last s + kc_time c)) false (k_streams s) false (k_ack s) (k_ping s) (k_drain s), [])
   else if k_out s && (k_left s <=? 0) then
-    (mkk t (k_last s) (k_prev s) (k_out s) (k_left s) t false (k_streams s) true (k_ack s) (k_ping s), [(8, t)])
+    (mkk t (k_last s) (k_prev s) (k_out s) (k_left s) t false (k_streams s) true (k_ack s) (k_ping s) (k_drain s), [(8, t)])
   else if (k_streams s <? 1) && negb (kc_permit c) then
-    (mkk t (k_last s) (k_prev s) false (k_left s) t true (k_streams s) false (k_ack s) (k_ping s), [])
+    (mkk t (k_last s) (k_prev s) false (k_left s) t true (k_streams s) false (k_ack s) (k_ping s) (k_drain s), [])
   else ping_and_sleep c s t.
 
 (* let virtual time pass up to (not including) target *)
@@ -57,36 +58,48 @@ Fixpoint advance (fuel : nat) (c : kcfg) (s : kst) (target : Z) : kst * list (Z 
   | O => (s, [])
   | S f =>
     if k_closed s || k_dorm s || (target <=? k_timer s) then
-      (mkk target (k_last s) (k_prev s) (k_out s) (k_left s) (k_timer s) (k_dorm s) (k_streams s) (k_closed s) (k_ack s) (k_ping s), [])
+      (mkk target (k_last s) (k_prev s) (k_out s) (k_left s) (k_timer s) (k_dorm s) (k_streams s) (k_closed s) (k_ack s) (k_ping s) (k_drain s), [])
     else
       let '(s1, e1) := fire c s in
       let '(s2, e2) := advance f c s1 target in (s2, e1 ++ e2)
   end.
 
-Inductive kop := KWait | KRead | KOpen | KCloseStream | KAckOn | KAckOff.
+Inductive kop := KWait | KRead | KOpen | KCloseStream | KAckOn | KAckOff | KGoAway.
 
 Definition act (c : kcfg) (s : kst) (o : kop) : kst * list (Z * Z) :=
-  let set_last s v := mkk (k_now s) v (k_prev s) (k_out s) (k_left s) (k_timer s) (k_dorm s) (k_streams s) (k_closed s) (k_ack s) (k_ping s) in
-  let set_streams s v := mkk (k_now s) (k_last s) (k_prev s) (k_out s) (k_left s) (k_timer s) (k_dorm s) v (k_closed s) (k_ack s) (k_ping s) in
-  let set_ack s v := mkk (k_now s) (k_last s) (k_prev s) (k_out s) (k_left s) (k_timer s) (k_dorm s) (k_streams s) (k_closed s) v (k_ping s) in
+  let set_last s v := mkk (k_now s) v (k_prev s) (k_out s) (k_left s) (k_timer s) (k_dorm s) (k_streams s) (k_closed s) (k_ack s) (k_ping s) (k_drain s) in
+  let set_streams s v := mkk (k_now s) (k_last s) (k_prev s) (k_out s) (k_left s) (k_timer s) (k_dorm s) v (k_closed s) (k_ack s) (k_ping s) (k_drain s) in
+  let set_ack s v := mkk (k_now s) (k_last s) (k_prev s) (k_out s) (k_left s) (k_timer s) (k_dorm s) (k_streams s) (k_closed s) v (k_ping s) (k_drain s) in
   if k_closed s then (s, []) else
   match o with
   | KWait => (s, [])
   | KRead => (set_last s (k_now s), [])
   | KOpen =>
+    (* NewStream fails on a draining transport (errStreamDrain) *)
+    if k_drain s then (s, []) else
     let s1 := set_streams s (k_streams s + 1) in
     if k_dorm s then
       if k_prev s <? k_last s then
         (* a byte was read while dormant: read activity like any other - the next ping is due
            Time after it, at once if that is already past *)
         let s2 := mkk (k_now s) (k_last s) (k_last s) false (k_left s) (Z.max (k_now s) (k_last s + kc_time c)) false
-                      (k_streams s + 1) false (k_ack s) (k_ping s) in
+                      (k_streams s + 1) false (k_ack s) (k_ping s) (k_drain s) in
         if k_timer s2 <=? k_now s then fire c s2 else (s2, [])
       else ping_and_sleep c s1 (k_now s)
     else (s1, [])
-  | KCloseStream => (if 0 <? k_streams s then set_streams s (k_streams s - 1) else s, [])
+  | KCloseStream =>
+    (* the harness does not close the last stream of a draining transport: that closes the
+       connection for a reason that is not keepalive *)
+    (if (0 <? k_streams s) && negb (k_drain s && (k_streams s =? 1)) then set_streams s (k_streams s - 1) else s, [])
   | KAckOn => (set_ack s true, [])
   | KAckOff => (set_ack s false, [])
+  | KGoAway =>
+    (* the peer sends GOAWAY(NO_ERROR, last-stream-id 2^31-1) while a stream is open (the harness
+       does not send it otherwise: handleGoAway closes a transport without streams): the frame
+       is a read, the transport is draining from now on and the keepalive loop goes on *)
+    if 1 <=? k_streams s then
+      (mkk (k_now s) (k_now s) (k_prev s) (k_out s) (k_left s) (k_timer s) (k_dorm s) (k_streams s) (k_closed s) (k_ack s) (k_ping s) true, [])
+    else (s, [])
   end.
 
 Definition fuel_for (c : kcfg) (dt : Z) : nat := Z.to_nat (2 * (dt / Z.min (kc_time c) (kc_timeout c)) + 6).
@@ -151,7 +164,8 @@ Fixpoint prun (c : pcfg) (s : pst) (ops : list (Z * pop)) : list word :=
 
 (* ================= cases ================= *)
 (* cfg [0; Time_ms; Timeout_ms; permit] : keepalive loop of a client, ops [kind; x] with
-       kind 1 wait, 2 the peer sends a byte, 3 open a stream, 4 close a stream, 5 / 6 peer acks pings on / off
+       kind 1 wait, 2 the peer sends a byte, 3 open a stream, 4 close a stream, 5 / 6 peer acks pings on / off,
+       7 the peer sends a graceful GOAWAY (only while a stream is open)
    cfg [1; MinTime_ms; permit]          : ping-abuse ledger of a server, ops [kind; x] with
        kind 1 wait, 2 client PING, 3 client opens a stream, 4 the server finishes a stream *)
 Definition in_x (x : Z) : bool := (0 <=? x) && (x <=? 20000).
@@ -161,6 +175,7 @@ Definition decode_kop (w : word) : option (Z * kop) :=
                 match k with
                 | 1 => Some (x, KWait) | 2 => Some (x, KRead) | 3 => Some (x, KOpen)
                 | 4 => Some (x, KCloseStream) | 5 => Some (x, KAckOn) | 6 => Some (x, KAckOff)
+                | 7 => Some (x, KGoAway)
                 | _ => None
                 end else None
   | _ => None
@@ -219,12 +234,17 @@ Definition evs (ob : word) : list (Z * Z) := match ob with [] => [] | _ :: r => 
    4 after a wake-up from dormancy (at a) that follows a byte (at t0) the loop had not looked at,
      a peer that stays silent is closed no later than max(t0 + Time, a) + Timeout
    5 clause 2 for the closes that follow such a wake-up
+   8 a dead peer is detected: once the timeline (last received byte + Time, keepalive applicable
+     - a stream is open, also on a transport that is draining after a graceful GOAWAY - then
+     Timeout without a byte) has run out, which the model's k_closed says, the implementation
+     has closed the connection (a close event was seen in this or an earlier observation)
    clause ids, ping-abuse ledger:
    6 GOAWAY(ENHANCE_YOUR_CALM) only in answer to a ping that came too early (less than MinTime
      after the previous one with streams / PermitWithoutStream, less than two hours otherwise)
    7 the third too-early ping not separated by server-sent headers/data is answered by GOAWAY *)
-Record kthread := mkkt { h_ping : Z; h_wake : Z }.   (* last ping seen; max(t0 + Time, a) of a wake-up with an unobserved read, or -1 *)
-Definition kt0 := mkkt 0 (-1).
+Record kthread := mkkt { h_ping : Z; h_wake : Z; h_seen : bool }.   (* last ping seen; max(t0 + Time, a) of a wake-up with an unobserved read, or -1; a close event was seen *)
+Definition kt0 := mkkt 0 (-1) false.
+Definition is_close (e : Z * Z) : bool := fst e =? 8.
 
 (* one event of an observation: a ping is remembered, a close is checked against the last read
    (lastv), the last ping (p) and, after a stale wake-up (hw >= 0), the literal bound *)
@@ -242,14 +262,15 @@ Definition kclause (c : kcfg) (s : kst) (h : kthread) (x : Z) (o : kop) (ob : wo
   (* is this op a wake-up from dormancy that follows a read the loop has not looked at? *)
   let s1 := fst (advance (fuel_for c (1000 * x + 1)) c s (k_now s + (1000 * x + 1))) in
   let wake := match o with
-              | KOpen => k_dorm s1 && negb (k_closed s1) && (k_prev s1 <? k_last s1) && negb (k_ack s1)
+              | KOpen => negb (k_drain s1) && k_dorm s1 && negb (k_closed s1) && (k_prev s1 <? k_last s1) && negb (k_ack s1)
               | _ => false
               end in
   (* ... and nothing has been read, no stream closed, no ack switched on since *)
   let h_wake' := if wake then Z.max (k_now s1) (k_last s1 + kc_time c)
-                 else match o with KRead | KCloseStream | KAckOn => -1 | _ => h_wake h end in
+                 else match o with KRead | KCloseStream | KAckOn | KGoAway => -1 | _ => h_wake h end in
   let '(cl, p) := fold_left (kcl_step c (k_last s') h_wake') (evs ob) ([], h_ping h) in
-  (cl, mkkt p h_wake').
+  let seen := h_seen h || existsb is_close (evs ob) in
+  (cl ++ [(8, k_now s', negb (k_closed s') || seen)], mkkt p h_wake' seen).
 
 Fixpoint kclauses (c : kcfg) (s : kst) (h : kthread) (ops : list (Z * kop)) (obs : list word) : list (Z * Z * bool) :=
   match ops, obs with
